@@ -33,7 +33,8 @@ def proof_side(pid, thorough):
     res["translate_ok"], res["translate_msg"] = tok, tmsg
     if not tok:
         res["broken"].append(f"translator: {tmsg}")
-    okb, log, failed = core.lake_build()
+    # only the modules this property's theorems depend on (a broken obligation of another property is that property's business)
+    okb, log, failed = core.lake_build((f"ShapeVerif.Props.{pid}", "driver"))
     res["build_ok"] = okb
     if not okb:
         res["build_log_tail"] = log[-4000:]
@@ -96,7 +97,16 @@ def main():
         else:
             mod.run(ctx)
     except Exception as e:
-        crash = traceback.format_exc()
+        tb = traceback.format_exc()
+        frames = traceback.extract_tb(e.__traceback__)
+        in_lib = [f for f in frames if os.path.join(core.REPO, "src") in f.filename or "/shapepy/" in f.filename]
+        if in_lib:
+            # the library raised where the harness expected it to answer: that is an observation about the library, not a harness failure
+            ctx.fail("library call raised unexpectedly inside the harness", {"where": f"{in_lib[-1].filename}:{in_lib[-1].lineno} in {in_lib[-1].name}", "harness_line": f"{frames[0].filename}:{frames[0].lineno}"},
+                     got=repr(e), sig={"family": "unexpected-exception"})
+            ctx.notes.append(tb[-1500:])
+        else:
+            crash = tb
     finally:
         if ctx._drv:
             ctx._drv.close()
